@@ -7,13 +7,14 @@ import (
 	"go/ast"
 	"go/token"
 	"go/types"
+	"math/big"
 	"strings"
 
 	"golang.org/x/tools/go/types/typeutil"
 )
 
 func init() {
-	propertyRules["C17"] = []ruleFn{ruleClientReset, ruleClientTip, ruleClientConfig, ruleRefBlock, ruleViewResetCover, ruleTimerDrain, ruleRearm, ruleInitArms}
+	propertyRules["C17"] = []ruleFn{ruleClientReset, ruleClientTip, ruleClientConfig, ruleRefBlock, ruleViewResetCover, ruleTimerDrain, ruleRearm, ruleInitArms, ruleTimestampUnit}
 	propertyExplain["C17"] = "Client typestate on internal/simulation and internal/consensus.New: the node's event loop re-initialises the library (DBFT.Reset) after a handled event under a condition implied by 'a block was processed', from the loop and not from inside the ProcessBlock callback; the ledger callbacks return fields that the ProcessBlock callback assigns from b.Index()/b.Hash(); OnTimeout receives the timer's Height()/View(); the timer channel is re-read in every iteration; every option checkConfig requires is supplied and the payload-verification options share one verifier; the reference block constructor receives the context fields in their roles; plus the library/timer preconditions the example's liveness relies on (per-view state dropped on every view change, the immediate-expiry channel is drained before a send, every timeout and initialisation re-arms the timer). Goroutine schedules, block interval and agreement between the simulated nodes are run-time behaviour of a concurrent program: not applicable."
 }
 
@@ -686,4 +687,120 @@ func (c *RC) simReaches(fn *FuncInfo, node ast.Node, depth int, match func(*Func
 		return true
 	})
 	return found
+}
+
+// A-TIMESTAMP-UNIT (C15, C14, C17): the library aligns proposal timestamps to Config.TimestampIncrement and guarantees
+// "previous + increment" at least. The bundled payloads and blocks keep a timestamp in a coarser unit (they divide the
+// nanoseconds they are given by a constant). The wiring that puts the two together (consensus.New) must ask for an
+// increment that is a multiple of that unit; with a finer one the increment is truncated away again and the proposal, and
+// the block built from it, carry the previous block's timestamp whenever the clock is behind.
+func ruleTimestampUnit(c *RC) *RuleResult {
+	r := &RuleResult{Rule: "A-TIMESTAMP-UNIT", Kind: "AGREE", Doc: "the TimestampIncrement configured by consensus.New (or the default) is a multiple of the unit in which the bundled proposal keeps its timestamp"}
+	newFn := c.Prog.ByName["internal/consensus:New"]
+	if newFn == nil {
+		r.Sites++
+		r.unresolved("consensus.New")
+		return r
+	}
+	info := newFn.Pkg.TypesInfo
+	// the proposal constructor handed to WithNewPrepareRequest, and the increment handed to WithTimestampIncrement
+	var ctor *FuncInfo
+	var inc *big.Int
+	ast.Inspect(newFn.Decl.Body, func(n ast.Node) bool {
+		call, ok := n.(*ast.CallExpr)
+		if !ok || len(call.Args) != 1 {
+			return true
+		}
+		name := exprText(call.Fun)
+		switch {
+		case strings.Contains(name, "WithNewPrepareRequest"):
+			if id, ok := ast.Unparen(call.Args[0]).(*ast.Ident); ok {
+				if f, ok := info.Uses[id].(*types.Func); ok {
+					ctor = c.Prog.Funcs[f.Origin()]
+				}
+			}
+		case strings.Contains(name, "WithTimestampIncrement"):
+			if tv, ok := info.Types[call.Args[0]]; ok && tv.Value != nil {
+				if v, ok := new(big.Int).SetString(tv.Value.ExactString(), 10); ok {
+					inc = v
+				}
+			}
+		}
+		return true
+	})
+	src := "consensus.New"
+	if inc == nil {
+		// the library's default
+		if dc := c.configDefaulter(); dc != nil {
+			ast.Inspect(dc.Decl.Body, func(n ast.Node) bool {
+				if kv, ok := n.(*ast.KeyValueExpr); ok {
+					if id, ok := kv.Key.(*ast.Ident); ok && id.Name == "TimestampIncrement" {
+						if tv, ok := dc.Pkg.TypesInfo.Types[kv.Value]; ok && tv.Value != nil {
+							if v, ok := new(big.Int).SetString(tv.Value.ExactString(), 10); ok {
+								inc = v
+								src = "the default of " + dc.Name
+							}
+						}
+					}
+				}
+				return true
+			})
+		}
+	}
+	r.Sites++
+	if ctor == nil || ctor.Decl == nil || len(ctor.Params) == 0 || inc == nil {
+		r.unresolved("proposal constructor given to WithNewPrepareRequest / configured increment")
+		return r
+	}
+	// the unit: the constant the constructor (or a one-line helper it hands the parameter to) divides its timestamp by
+	unit := big.NewInt(1)
+	var divisorIn func(fn *FuncInfo, prm *types.Var, depth int)
+	divisorIn = func(fn *FuncInfo, prm *types.Var, depth int) {
+		finfo := fn.Pkg.TypesInfo
+		ast.Inspect(fn.Decl.Body, func(n ast.Node) bool {
+			switch x := n.(type) {
+			case *ast.BinaryExpr:
+				if x.Op == token.QUO {
+					if id, ok := ast.Unparen(x.X).(*ast.Ident); ok && finfo.Uses[id] == types.Object(prm) {
+						if tv, ok := finfo.Types[x.Y]; ok && tv.Value != nil {
+							if v, ok := new(big.Int).SetString(tv.Value.ExactString(), 10); ok && v.Sign() > 0 {
+								unit = v
+							}
+						}
+					}
+				}
+			case *ast.CallExpr:
+				if depth < 2 {
+					if fo, ok := typeutil.Callee(finfo, x).(*types.Func); ok {
+						if callee := c.Prog.Funcs[fo.Origin()]; callee != nil && callee.Decl != nil && callee.Decl.Body != nil {
+							for ai, a := range x.Args {
+								if id, ok := ast.Unparen(a).(*ast.Ident); ok && finfo.Uses[id] == types.Object(prm) && ai < len(callee.Params) {
+									divisorIn(callee, callee.Params[ai], depth+1)
+								}
+							}
+						}
+					}
+				}
+			}
+			return true
+		})
+	}
+	// the timestamp parameter: the first parameter of unsigned 64-bit type
+	var tsParam *types.Var
+	for _, p := range ctor.Params {
+		if b, ok := p.Type().Underlying().(*types.Basic); ok && b.Kind() == types.Uint64 && tsParam == nil {
+			tsParam = p
+		}
+	}
+	if tsParam == nil {
+		r.unresolved("timestamp parameter of " + ctor.Name)
+		return r
+	}
+	divisorIn(ctor, tsParam, 0)
+	if new(big.Int).Mod(inc, unit).Sign() == 0 {
+		r.ok(fmt.Sprintf("%s keeps its timestamp in units of %s ns; the increment (%s, from %s) is a multiple of it", ctor.Name, unit, inc, src))
+	} else {
+		r.fail("consensus.New/increment-below-payload-unit", c.Prog.Pos(newFn.Decl), fmt.Sprintf("%s keeps its timestamp in units of %s ns, the configured TimestampIncrement is %s ns (%s): the library's 'previous + increment' is truncated back to the previous block's timestamp, so with a clock that is behind (or stepped back) the broadcast proposal and the block built from it are not newer than the previous block", ctor.Name, unit, inc, src))
+	}
+	return r
 }
